@@ -623,9 +623,26 @@ func init() {
 			// (a first-match accessor such as GetAttr sees only one of several repeated attributes)
 			inLoop := map[string]bool{}
 			eachInstr(fn, func(in ssa.Instruction) {
-				if b, ok := in.(*ssa.BinOp); ok && b.Op == token.EQL {
-					if s, ok := constString(b.Y); ok && (s == ":require" || s == ":required") {
-						if f := loadedField(b.X); f != nil && fieldIs(f, "Key") && loopHeaderOf(b.Block()) != nil {
+				v, ok := in.(ssa.Value)
+				if !ok || loopHeaderOf(in.Block()) == nil {
+					return
+				}
+				// attr.Key == ":require" … or a membership test of attr.Key in a table of those names
+				var subj ssa.Value
+				var set []string
+				if b, ok := in.(*ssa.BinOp); ok && (b.Op == token.EQL || b.Op == token.NEQ) {
+					if s, ok := constString(b.Y); ok {
+						subj, set = b.X, []string{s}
+					}
+				} else if x, st, _, isM := memberOf(v); isM {
+					subj, set = x, st
+				}
+				if subj == nil {
+					return
+				}
+				if f := loadedField(subj); f != nil && fieldIs(f, "Key") {
+					for _, s := range set {
+						if s == ":require" || s == ":required" {
 							inLoop[s] = true
 						}
 					}
@@ -914,26 +931,92 @@ func init() {
 			// Pop: pool Put is guarded by topIdx > 0 (never the root)
 			for _, site := range callsIn(pop) {
 				if isCall(site, "(*sync.Pool).Put") {
-					guarded := guardedBy(site.Block(), func(cnd ssa.Value, want bool) bool {
-						b, ok := cnd.(*ssa.BinOp)
-						if !ok {
-							return false
+					guarded := false
+					for _, g := range guardsOf(site.Block()) {
+						// index > 0 (also written 0 < index, index >= 1, !(index <= 0) …)
+						if op, x, y, ok := relationConstRight(g.If.Cond, g.Branch); ok {
+							if z, isK := constInt(y); isK && ((op == token.GTR && z == 0) || (op == token.GEQ && z == 1) || (op == token.NEQ && z == 0)) {
+								// the tested quantity is the index of the top scope: len(s.stack) - 1
+								for _, o := range append(p.origins(x, OriginOpts{}), x) {
+									if bo, ok := o.(*ssa.BinOp); ok && bo.Op == token.SUB {
+										for _, lo := range append(p.origins(bo.X, OriginOpts{}), bo.X) {
+											if ln := isCallNamed(lo, "builtin.len"); ln != nil {
+												if f := loadedField(ln.Call.Args[0]); f != nil && fieldIs(f, "stack") {
+													guarded = true
+												}
+											}
+										}
+									}
+								}
+							}
 						}
-						if z, ok := constInt(b.Y); ok && z == 0 && b.Op == token.GTR && want {
-							return true
-						}
-						return false
-					})
+					}
 					c.check(guarded, "Pop: root scope is not recycled", p.instrPos(site), "Put is guarded by index > 0", "the root scope map may be cleared and recycled into the pool")
 				}
 			}
 			// Copy: NewStackWithData(EnvMap(), rootData)
 			okCopy := false
+			freshMap := func(v ssa.Value) bool {
+				ok := false
+				for _, o := range p.origins(v, OriginOpts{}) {
+					if isCallNamed(o, "(*vuego.Stack).EnvMap") != nil {
+						ok = true
+						continue
+					}
+					if _, isMk := o.(*ssa.MakeMap); isMk {
+						ok = true
+						continue
+					}
+					return false
+				}
+				return ok
+			}
 			for _, site := range callsIn(cp) {
-				if calleeName(site.Common()) == "vuego.NewStackWithData" {
-					for _, o := range p.origins(site.Common().Args[0], OriginOpts{}) {
-						if isCallNamed(o, "(*vuego.Stack).EnvMap") != nil {
-							okCopy = true
+				if calleeName(site.Common()) == "vuego.NewStackWithData" && freshMap(site.Common().Args[0]) {
+					okCopy = true
+				}
+			}
+			// or the copy is built directly: &Stack{stack: []map[string]any{<fresh map>}, …}
+			for _, r := range returnsOf(cp) {
+				for _, o := range p.origins(r.Results[0], OriginOpts{}) {
+					al, ok := o.(*ssa.Alloc)
+					if !ok {
+						continue
+					}
+					for _, u := range *al.Referrers() {
+						fa, ok := u.(*ssa.FieldAddr)
+						if !ok || !fieldIs(fieldVar(fa), "stack") {
+							continue
+						}
+						for _, uu := range *fa.Referrers() {
+							st, ok := uu.(*ssa.Store)
+							if !ok || st.Addr != ssa.Value(fa) {
+								continue
+							}
+							// the stored list: a literal whose elements are all fresh maps
+							all, n := true, 0
+							for _, lo := range p.origins(st.Val, OriginOpts{}) {
+								arr, ok := lo.(*ssa.Alloc)
+								if !ok {
+									all = false
+									continue
+								}
+								for _, au := range *arr.Referrers() {
+									if ia, ok := au.(*ssa.IndexAddr); ok {
+										for _, iu := range *ia.Referrers() {
+											if est, ok := iu.(*ssa.Store); ok && est.Addr == ssa.Value(ia) {
+												n++
+												if !freshMap(est.Val) {
+													all = false
+												}
+											}
+										}
+									}
+								}
+							}
+							if all && n > 0 {
+								okCopy = true
+							}
 						}
 					}
 				}
@@ -1256,9 +1339,27 @@ func init() {
 		ID: "C05.R5", Props: []string{"C05"}, Min: 2,
 		Doc: "a shorthand tag is the include by construction: the rewrite of a registered component tag only renames the element to `template` and appends an `include` attribute whose value is the registry's filename — it touches no other field, keeps the attributes (props) and the children (slot content), and the registry is consulted with the element's own tag name",
 		Run: func(p *Prog, c *Ctx) {
-			fn := p.MustFn("(*vuego.Vue).replaceWithInclude")
-			node := fn.Params[1]
-			file := fn.Params[2]
+			// the rewrite itself — or, when the two-statement method was inlined and deleted, the walk that contains it
+			hosts, isRole := p.hostsOf("(*vuego.Vue).replaceWithInclude")
+			if len(hosts) == 0 {
+				undecided("anchor function (*vuego.Vue).replaceWithInclude not found, nor its former callers")
+			}
+			fn := hosts[0]
+			node := ssa.Value(fn.Params[1])
+			var file ssa.Value
+			if isRole {
+				file = fn.Params[2]
+			} else {
+				for _, lk := range registryLookups(fn) {
+					if refs := lk.v.Referrers(); refs != nil {
+						for _, u := range *refs {
+							if ex, ok := u.(*ssa.Extract); ok && ex.Index == 0 {
+								file = ex
+							}
+						}
+					}
+				}
+			}
 			fields := map[string]ssa.Value{}
 			eachInstr(fn, func(in ssa.Instruction) {
 				if st, ok := in.(*ssa.Store); ok {
@@ -1300,11 +1401,9 @@ func init() {
 			// the registry lookup uses the element's tag
 			pc := p.MustFn("(*vuego.Vue).processComponentNode")
 			okLookup := false
-			for _, site := range callsIn(pc) {
-				if calleeName(site.Common()) == "(*vuego.Vue).GetComponentFile" {
-					if f := loadedField(site.Common().Args[1]); f != nil && fieldIs(f, "Data") {
-						okLookup = true
-					}
+			for _, lk := range registryLookups(pc) {
+				if f := loadedField(lk.key); f != nil && fieldIs(f, "Data") {
+					okLookup = true
 				}
 			}
 			c.check(okLookup, "processComponentNode: registry keyed by the tag name", p.pos(pc.Pos()), "GetComponentFile(node.Data)", "the component registry is not consulted with the element's tag name")
@@ -1367,4 +1466,28 @@ func isNamedMapStringAny(t types.Type) bool {
 		return false
 	}
 	return isString(m.Key()) && types.IsInterface(m.Elem())
+}
+
+// registryLookups: where a function consults the component registry — a call of GetComponentFile, or the
+// lookup in the registry map itself (the accessor inlined by hand).
+type registryLookup struct {
+	v   ssa.Value // the (file, ok) tuple
+	key ssa.Value
+}
+
+func registryLookups(fn *ssa.Function) []registryLookup {
+	var out []registryLookup
+	eachInstr(fn, func(in ssa.Instruction) {
+		switch x := in.(type) {
+		case *ssa.Call:
+			if calleeName(&x.Call) == "(*vuego.Vue).GetComponentFile" && len(x.Call.Args) > 1 {
+				out = append(out, registryLookup{x, x.Call.Args[1]})
+			}
+		case *ssa.Lookup:
+			if f := loadedField(x.X); f != nil && fieldIs(f, "componentMap") {
+				out = append(out, registryLookup{x, x.Index})
+			}
+		}
+	})
+	return out
 }
